@@ -37,7 +37,7 @@ func cases(tier string) int {
 	if tier == "thorough" {
 		return 150000
 	}
-	return 2400
+	return 6400
 }
 
 // probe universe for a key: every mentioned value, integers at and around every bound / integer value,
